@@ -23,6 +23,8 @@ pub enum Target {
 	Ignored,
 	Blind,
 	Hash,
+	/// schema-directed like `Capture`, but each node may use an alternative serde hint (seeded)
+	AltHints(u64),
 }
 impl Target {
 	pub fn capture() -> Self {
@@ -38,6 +40,7 @@ impl Target {
 			Target::Ignored => "ignored",
 			Target::Blind => "blind",
 			Target::Hash => "hash",
+			Target::AltHints(_) => "alt-hints",
 		}
 	}
 }
@@ -90,6 +93,12 @@ where
 		}
 		Target::Masked(seed) => {
 			let ctx = CapCtx::masked(env, seed);
+			let r = Capture { ty, ctx: &ctx }.deserialize(d);
+			(r, ctx.callbacks.get(), ctx.max_depth.get())
+		}
+		Target::AltHints(seed) => {
+			let mut ctx = CapCtx::new(env);
+			ctx.alt = Some(seed);
 			let r = Capture { ty, ctx: &ctx }.deserialize(d);
 			(r, ctx.callbacks.get(), ctx.max_depth.get())
 		}
